@@ -184,17 +184,13 @@ def bDivBy2 (a m : List Nat) : List Nat :=
 /-- `add_mul_carry(z, x, y)`: `z += x * y`, returns the new `z` and the carry. -/
 def addMulCarry : List Nat → List Nat → Nat → Nat → List Nat × Nat
   | z :: zs, x :: xs, y, c =>
-    let (w, c') := mac z x y c
-    let (r, cf) := addMulCarry zs xs y c'
-    (w :: r, cf)
+    ((mac z x y c).1 :: (addMulCarry zs xs y (mac z x y c).2).1, (addMulCarry zs xs y (mac z x y c).2).2)
   | _, _, _, c => ([], c)
 
 /-- the shifting loop of `add_mul_carry_and_shift` over `z[1..]`, `x[1..]`: produces `z[0 .. n-1)`. -/
 def shiftChain : List Nat → List Nat → Nat → Nat → List Nat × Nat
   | z :: zs, x :: xs, y, c =>
-    let (w, c') := mac z x y c
-    let (r, cf) := shiftChain zs xs y c'
-    (w :: r, cf)
+    ((mac z x y c).1 :: (shiftChain zs xs y (mac z x y c).2).1, (shiftChain zs xs y (mac z x y c).2).2)
   | _, _, _, c => ([], c)
 
 /-- `add_mul_carry_and_shift(z, x, y)`: `(_, c) = z[0].mac(x[0], y, 0)`, then `z[i-1] = z[i].mac(x[i], y, c)`.
@@ -207,39 +203,44 @@ def addMulCarryAndShift (z x : List Nat) (y : Nat) : List Nat × Nat :=
 def conditionalSub (z x : List Nat) (c : Nat) : List Nat :=
   (usbb z (bitandLimb x c) 0).1
 
+/-- one iteration of the `while i < n` loop of `almost_montgomery_mul` given the result `(z1, c)` of the
+    `add_mul_carry` phase: `(ts, c) = ts.overflowing_add(c); ts1 = c; t = z[0]·k;
+    c = add_mul_carry_and_shift(z, m, t); (z[n-1], c) = ts.overflowing_add(c); ts = ts1.wrapping_add(c)`. -/
+def ammReduce (m : List Nat) (k : Nat) (z1 : List Nat) (c ts : Nat) : List Nat × Nat :=
+  let ts' := (overflowingAdd ts c).1
+  let ts1 := (overflowingAdd ts c).2
+  let t := wmul (z1.headD 0) k
+  let sh := (addMulCarryAndShift z1 m t).1
+  let c3 := (addMulCarryAndShift z1 m t).2
+  let top := (overflowingAdd ts' c3).1
+  let c4 := (overflowingAdd ts' c3).2
+  (sh ++ [top], wadd ts1 c4)
+
 /-- the `while i < n` loop of `almost_montgomery_mul` over the limbs of `y`; state `(z, ts)`. -/
 def ammLoop (x m : List Nat) (k : Nat) : List Nat → List Nat → Nat → List Nat × Nat
   | [], z, ts => (z, ts)
   | y :: ys, z, ts =>
-    let (z1, c) := addMulCarry z x y 0
-    let (ts', c2) := overflowingAdd ts c
-    let ts1 := c2
-    let t := wmul (z1.headD 0) k
-    let (sh, c3) := addMulCarryAndShift z1 m t
-    let (top, c4) := overflowingAdd ts' c3
-    ammLoop x m k ys (sh ++ [top]) (wadd ts1 c4)
+    ammLoop x m k ys
+      (ammReduce m k (addMulCarry z x y 0).1 (addMulCarry z x y 0).2 ts).1
+      (ammReduce m k (addMulCarry z x y 0).1 (addMulCarry z x y 0).2 ts).2
 
 /-- `almost_montgomery_mul(z = 0, x, y, m, k)`. -/
 def almostMontgomeryMul (x y m : List Nat) (k : Nat) : List Nat :=
-  let (z, ts) := ammLoop x m k y (uzero m.length) 0
-  conditionalSub z m (fromWordLsb ts)
+  conditionalSub (ammLoop x m k y (uzero m.length) 0).1 m (fromWordLsb (ammLoop x m k y (uzero m.length) 0).2)
 
-/-- the loop of `almost_montgomery_mul_by_one`: `add_mul_carry(z, x, 1)` only in the first iteration. -/
+/-- the loop of `almost_montgomery_mul_by_one`: `add_mul_carry(z, x, 1)` only in the first iteration
+    (`c = 0` otherwise). -/
 def ammOneLoop (x m : List Nat) (k : Nat) : Nat → Bool → List Nat → Nat → List Nat × Nat
   | 0, _, z, ts => (z, ts)
   | fuel + 1, first, z, ts =>
-    let (z1, c) := if first then addMulCarry z x 1 0 else (z, 0)
-    let (ts', c2) := overflowingAdd ts c
-    let ts1 := c2
-    let t := wmul (z1.headD 0) k
-    let (sh, c3) := addMulCarryAndShift z1 m t
-    let (top, c4) := overflowingAdd ts' c3
-    ammOneLoop x m k fuel false (sh ++ [top]) (wadd ts1 c4)
+    ammOneLoop x m k fuel false
+      (ammReduce m k (if first then (addMulCarry z x 1 0).1 else z) (if first then (addMulCarry z x 1 0).2 else 0) ts).1
+      (ammReduce m k (if first then (addMulCarry z x 1 0).1 else z) (if first then (addMulCarry z x 1 0).2 else 0) ts).2
 
 /-- `almost_montgomery_mul_by_one(z = 0, x, m, k)`. -/
 def almostMontgomeryMulByOne (x m : List Nat) (k : Nat) : List Nat :=
-  let (z, ts) := ammOneLoop x m k m.length true (uzero m.length) 0
-  conditionalSub z m (fromWordLsb ts)
+  conditionalSub (ammOneLoop x m k m.length true (uzero m.length) 0).1 m
+    (fromWordLsb (ammOneLoop x m k m.length true (uzero m.length) 0).2)
 
 /-- `BoxedMontyMultiplier::mul_assign`: AMM, then `sub_assign_mod_with_carry(0, m, m)`. -/
 def bMul (a b m : List Nat) (k : Nat) : List Nat :=
